@@ -302,7 +302,10 @@ Definition server_set (s : session) (o : order) : res (session * list Z) :=
     if work_empty w then Ok (set_work s None, clear_work_packet)
     else if negb (work_verify w) then Err ErrVerify
     else Ok (set_work s (Some w), enc_u8 timeWorkHours ++ write_workhours w)
-  | OTaskDuration d j => Ok (s, enc_u16 (u16 (Z.land j 255)) ++ enc_u64 (u64 d))
+  | OTaskDuration d j =>
+    (* task.Duration clamps like SetDuration before it keeps the low byte (-1 stays 0xFF = "keep") *)
+    let j' := if j =? -1 then j else if j <? 0 then 0 else if 100 <? j then 100 else j in
+    Ok (s, enc_u16 (u16 (Z.land j' 255)) ++ enc_u64 (u64 d))
   | OTaskKill k => Ok (s, enc_u8 timeKillDate ++ enc_u64 (kill_wire k))
   | OTaskWork w => Ok (s, enc_u16 (u16 (Z.lor 512 (Z.land (w_days w) 255))) ++ enc_u8 (w_sh w) ++ enc_u8 (w_sm w) ++
                           enc_u8 (w_eh w) ++ enc_u8 (w_em w))
